@@ -1,6 +1,7 @@
 
 from __future__ import annotations
 
+import re
 from datetime import datetime, tzinfo
 
 from .. import Params, Parseable
@@ -19,6 +20,10 @@ class DateTime(Parseable[datetime]):
         raw: The raw bytestring from IMAP parsing.
 
     """
+
+    #: The RFC 3501 zone: strptime's %z also takes +HH:MM, +HHMMSS[.ffffff]
+    #: and Z, and an offset with seconds cannot be written as a date-time.
+    _zone_pattern = re.compile(br' [+-]\d{4}\Z')
 
     def __init__(self, when: datetime, raw: bytes | None = None) -> None:
         super().__init__()
@@ -41,6 +46,8 @@ class DateTime(Parseable[datetime]):
     def parse(cls, buf: memoryview, params: Params) \
             -> tuple[DateTime, memoryview]:
         string, after = QuotedString.parse(buf, params)
+        if not cls._zone_pattern.search(string.value):
+            raise InvalidContent(buf)
         try:
             when_str = str(string.value, 'ascii')
             when = datetime.strptime(when_str, '%d-%b-%Y %X %z')
